@@ -125,12 +125,26 @@ def _case(draw, tier):
         # the universal expression is a flattened collection: for_all(flatten(s.kids), c) quantifies over every element of
         # every s (inside c the universal index then denotes the element)
         fa = ["forall", u, c, ["flat", ["attr", ["var", u], "kids"]]]
+    per_binding = False
+    if klass == "both" and len(fa) == 3 and chance(draw, 1, 5):
+        for i in doms[0]:
+            if not recs[i]["kids"]:
+                recs[i]["kids"] = [draw(st.integers(0, n - 1))]      # (a non-empty collection for every candidate)
+        # the universal expression depends on a FREE variable: "every kid of THAT x" - for_all(flatten(x.kids), c(x, kid)),
+        # reached with x bound by a condition that comes first
+        c = leaf(draw, ctx, [0, u])
+        fa = ["forall", u, c, ["flat", ["attr", ["var", 0], "kids"]]]
+        per_binding = True
     combine = draw(st.sampled_from(["alone", "alone", "d_first", "d_last", "top_level"]))
+    if per_binding:
+        combine = draw(st.sampled_from(["d_first", "top_level"]))
     if combine == "alone":
         cond = fa
         split = False
     else:
         d = _only(draw, ctx, frees)
+        if per_binding and 0 not in A.cond_vars(d):
+            d = ["and", "nary", [leaf(draw, ctx, [0]), d]]      # (the condition that comes first binds x)
         cond = ["and", "nary", [d, fa] if combine != "d_last" else [fa, d]]
         split = combine == "top_level"
     order = list(draw(st.permutations(frees)))
@@ -169,7 +183,8 @@ def check(case) -> Outcome:
     u = case["u"]
     fa = [n for n in A.walk(case["cond"]) if n[0] == "forall"][0]
     ref_case = case
-    if len(fa) > 3 and fa[3][0] == "flat":
+    per_binding = len(fa) > 3 and fa[3][0] == "flat" and fa[3][1][1][1] != u
+    if len(fa) > 3 and fa[3][0] == "flat" and not per_binding:
         # reference: the universal variable ranges over the flattened elements (kids are indices into the dataset)
         import copy
         ref_case = copy.deepcopy(case)
@@ -180,8 +195,24 @@ def check(case) -> Outcome:
         for n_ in A.walk(ref_case["cond"]):
             if n_[0] == "forall" and len(n_) > 3:
                 del n_[3:]
-    expected, n_sat, n_all = reference_rows(ref_case, objs)
-    U = var_domains(ref_case, objs)[u]
+    if per_binding:
+        # reference for "every element of THAT binding's collection": d(f) and all(c(f, x) for x in f[j].kids)
+        import itertools
+        j = fa[3][1][1][1]
+        doms_ = var_domains(case, objs)
+        frees_ = [v for v in range(len(case["vars"])) if v != u]
+        d_parts = [n_ for n_ in (case["cond"][2] if case["cond"][0] == "and" else []) if n_[0] != "forall"]
+        expected, n_sat, n_all, seen_ = [], 0, 0, set()
+        for combo in itertools.product(*[doms_[v] for v in frees_]):
+            env = dict(zip(frees_, combo))
+            n_all += 1
+            if all(A.eval_cond(d_, env) for d_ in d_parts) and all(A.eval_cond(fa[2], {**env, u: x_}) for x_ in env[j].kids):
+                n_sat += 1
+                expected.append(tuple(A.eval_term(t, env) for t in case["sel"]))
+        U = [x_ for o_ in doms_[j] for x_ in o_.kids]
+    else:
+        expected, n_sat, n_all = reference_rows(ref_case, objs)
+        U = var_domains(ref_case, objs)[u]
     inner_vars = A.cond_vars(fa[2]) | ({u} if u in _mentions(fa[2]) else set())
     mentions_u = u in _mentions(fa[2])
     mentions_f = bool(_mentions(fa[2]) - {u})
@@ -196,6 +227,8 @@ def check(case) -> Outcome:
     feats.append(f"free{len(case['vars']) - 1}")
     if len(case["sel"]) < len(case["vars"]) - 1:
         feats.append("projected")
+    if per_binding:
+        feats.append("universal_expression_depends_on_a_free_variable")
     feats.append(("universal_is_flattened_collection" if fa[3][0] == "flat" else "universal_is_attribute_expression")
                  if len(fa) > 3 else "universal_is_variable")
     classes = list(feats) + [f"U{min(len(U), 4)}"]
